@@ -141,6 +141,13 @@ func progFields(mainRel string, files map[string]string, withStd bool) []string 
 	for _, k := range keys {
 		ents = append(ents, hx(vroot+"/"+k)+"."+hx(files[k])+"."+hx(filePrefix(files[k])))
 	}
+	// the implementation looks the standard library up on the real file system: whenever a source may import
+	// something, the library files must be part of the environment the model sees
+	for _, k := range keys {
+		if strings.Contains(files[k], "import") {
+			withStd = true
+		}
+	}
 	if withStd {
 		for _, n := range []string{"strings.tsh", "os.tsh"} {
 			b, err := os.ReadFile(filepath.Join(stdDir(), n))
